@@ -281,6 +281,20 @@ pub fn tree_walker(
     let mut through_links: HashSet<PathBuf> = HashSet::new();
     let mut spelled: HashSet<PathBuf> = HashSet::new();
 
+    // The regular files that are sources of this run, by identity:
+    // the ones named on the command line now, the others as they are
+    // met. None of them may be overwritten through a link or hard
+    // link sitting in the destination under another source's name.
+    let mut read: HashMap<(u64, u64), PathBuf> = HashMap::new();
+    for source in &sources {
+        let meta = if config.dereference { fs::metadata(source) } else { fs::symlink_metadata(source) };
+        if let Ok(meta) = meta {
+            if meta.is_file() {
+                read.entry((meta.dev(), meta.ino())).or_insert_with(|| source.clone());
+            }
+        }
+    }
+
     for source in sources {
         let sourcedir = source
             .components()
@@ -420,9 +434,25 @@ pub fn tree_walker(
                     // sources written into it by the same run would
                     // end up as a mixture of both. (With numbered
                     // backups nothing is overwritten in place.)
+                    read.entry((meta.dev(), meta.ino())).or_insert_with(|| from.clone());
+                    if written.get(&(meta.dev(), meta.ino())).is_some_and(|s| *s != from) {
+                        // (An earlier source is already being written into this one.)
+                        let msg = "Will not overwrite another source of this same copy.";
+                        stats.send(StatusUpdate::Error(
+                            XcpError::DestinationExists(msg, target)))?;
+                        return Err(XcpError::EarlyShutdown(msg).into());
+                    }
                     if config.backup != Backup::Numbered {
                         if let Ok(tmeta) = fs::metadata(&target) {
                             if tmeta.is_file() {
+                                // (Nor may it be another source of the run.)
+                                let other_source = read.get(&(tmeta.dev(), tmeta.ino())).is_some_and(|s| *s != from);
+                                if other_source {
+                                    let msg = "Will not overwrite another source of this same copy.";
+                                    stats.send(StatusUpdate::Error(
+                                        XcpError::DestinationExists(msg, target)))?;
+                                    return Err(XcpError::EarlyShutdown(msg).into());
+                                }
                                 if let Some(first) = written.insert((tmeta.dev(), tmeta.ino()), from.clone()) {
                                     if first != from {
                                         let msg = "Will not overwrite a destination written by this same copy.";
